@@ -217,6 +217,28 @@ def main(tier):
     check_date_merge(run, fx, rs)
     check_required(run, fx, rs)
     check_clamps(run, fx, rs)
+    # the month / monthCode consistency test looks at the month as supplied
+    rule = "R11.month-code-compared-with-supplied-month"
+    run.rule(rule, "resolve_iso_month compares `monthCode` with the `month` field exactly as supplied: a month that was first "
+                   "clamped (constrain) can be made to agree with a month code it contradicts (month 13 with M12)")
+    frm = fx["temporal_rs"].fn("temporal_rs::builtins::core::calendar::types::resolve_iso_month")
+    if frm is None:
+        run.anchor_missing(rule, "resolve_iso_month", "not found")
+    else:
+        ev = H.Evaluator(fx)
+        ev.inline = lambda p: p.startswith("temporal_rs::error::")
+        conds = set()
+        for dec, res, tr in ev.paths(frm, [H.Sym("param", (p["name"],)) for p in frm.params], max_paths=200):
+            for c, ch in dec:
+                if "to_month_integer" in c and c.startswith(("bin!=", "bin==")):
+                    conds.add(c)
+        if not conds:
+            run.anchor_missing(rule, "comparison", "no month/monthCode comparison found in resolve_iso_month", frm.loc)
+        for c in sorted(conds):
+            raw = "$partial_date.month" in c and not any(w in c for w in ("clamp", "min[", "max[", "Ord::min", "Ord::max"))
+            run.check(raw, rule, "comparison", "compares the supplied month: %s" % c[:100],
+                      "the month compared with the month code is not the supplied field (it went through a clamp): %s" % c[:200],
+                      frm.loc)
     # R2: the caller's overflow option reaches every callee that takes one
     rule = "R2.overflow-option-forwarded"
     run.rule(rule, "in every function that receives an `overflow` option (ArithmeticOverflow), each callee that has an overflow "
